@@ -33,6 +33,15 @@ def handleGen (j : Json) : R Json := do
       ("trace", Json.arr (tr.map traceItemToJson).toArray),
       ("rest", natToJson rest.length)])
 
+def handleEstim (j : Json) : R Json := do
+  let ms ← listOf (optOf mixOf) (← getF j "ms")
+  let M ← optOf ratOf (← getF j "M")
+  match estimate ms M with
+  | .error e => pure (Json.mkObj [("ok", Json.bool false), ("err", Json.str ((reprStr e).replace "GBS.EErr." ""))])
+  | .ok (b, r) =>
+    pure (Json.mkObj [("ok", Json.bool true), ("gen", Json.bool b),
+      ("ms", Json.arr (r.map fun m => match m with | none => Json.null | some m => mixToJson m).toArray)])
+
 def handle (j : Json) : R Json := do
   let op ← strOf (← getF j "op")
   match op with
@@ -40,6 +49,7 @@ def handle (j : Json) : R Json := do
   | "ORDER" => handleOrder j
   | "IDS" => handleIds j
   | "GEN" => handleGen j
+  | "ESTIM" => handleEstim j
   | "COMPATMAT" => handleCompatMat j
   | _ => throw s!"unknown op {op}"
 
